@@ -132,7 +132,31 @@ def meta_keys(body, meta_expr):
     x = q.peel(meta_expr)
     if x[0] == "agg" and x[1].get("adt") == "serde_json::value::Value" and x[1].get("variant") == "Object":
         ins = map_inserts(body, x[1]["ops"][0])
-        return {k: v for (k, v, c) in ins if k is not None}
+        out = {k: v for (k, v, c) in ins if k is not None}
+        # `let mut meta = json!({..}); meta["error"] = v;` - keys added afterwards through IndexMut (only the live ones count:
+        # a key set under `if let Some(e) = error` is there exactly on the paths where that arm is feasible)
+        home = None
+        for bi, b in enumerate(body.blocks):
+            for st in b["stmts"]:
+                if st["k"] == "assign" and st["rv"] is x[1] and not st["lhs"]["p"]:
+                    home = st["lhs"]["l"]
+        if home is not None:
+            same = q.move_aliases(body, home)
+            body.defs()
+            for c in body.calls():
+                if c.bb not in body.live_blocks() or c.fn != "core::ops::index::IndexMut::index_mut" or "serde_json::value::Value" not in (c.res or c.fnx):
+                    continue
+                if q.root_local(body, c.args[0]) not in same or c.dest["p"]:
+                    continue
+                keys = q.const_strs(c.arg(1))
+                if not keys:
+                    continue
+                val = None
+                for (bi, si, lhs, rv, sp) in body.field_writes:
+                    if lhs["l"] == c.dest["l"] and lhs["p"] == ["*"] and bi in body.live_blocks():
+                        val = body.rvalue_expr(rv)
+                out[keys[0]] = val if val is not None else ("opaque", "assigned through IndexMut")
+        return out
     return None
 
 
